@@ -1088,3 +1088,16 @@ fn is_filesystem_safe(column_name: &str) -> bool {
             .chars()
             .all(|c| (c.is_alphanumeric() && c.is_lowercase()) || c == '_')
 }
+
+#[cfg(feature = "verif")]
+pub(crate) fn verif_is_filesystem_safe(column_name: &str) -> bool {
+    is_filesystem_safe(column_name)
+}
+
+#[cfg(feature = "verif")]
+pub(crate) fn verif_subpartition(
+    opts: &Options,
+    columns: Vec<Arc<Column>>,
+) -> (Vec<SubpartitionMetadata>, Vec<Vec<Arc<Column>>>) {
+    subpartition(opts, columns)
+}
